@@ -545,6 +545,7 @@ func (fr *Frame) execInstr(b *ssa.BasicBlock, idx int, ins ssa.Instruction, st *
 	case *ssa.Panic:
 		fr.panicObl(b, idx, "explicit", "false", reach, ins)
 	case *ssa.Return:
+		fr.callSiteSpecs(b, idx, ins, nil, nil, st, reach)
 		var rs []*Val
 		for _, r := range ins.Results {
 			rs = append(rs, fr.val(r))
@@ -557,8 +558,10 @@ func (fr *Frame) execInstr(b *ssa.BasicBlock, idx int, ins ssa.Instruction, st *
 	case *ssa.Jump:
 		fr.edge[[2]int{b.Index, 0}] = reach
 	case *ssa.Send:
+		fr.callSiteSpecs(b, idx, ins, nil, nil, st, reach)
 		u.note("channel send in %s not modelled", fr.fn.Name())
 	case *ssa.Select:
+		fr.callSiteSpecs(b, idx, ins, nil, nil, st, reach)
 		fr.unsupported(ins, "select")
 		fr.havocAll(st, "select")
 		fr.vals[ins] = fr.freshVal(ins.Type(), fr.prefix+ins.Name())
